@@ -191,7 +191,10 @@ class SymeigP(Problem):
         if isinstance(method, str) and method.lower() == "davidson":
             kw.setdefault("min_eps", 1e-11)
             kw.setdefault("max_niter", 400)
-        ev, vec = symeig(self.last_A, neig=2, mode="lowest", method=method, bck_options=bck or {}, **kw)
+        # a third of the problems ask for the whole spectrum (neig None or n): the method must be honoured there too
+        self.neig_arg = {0: None, 1: self.n}.get(self.seed % 6, 2)
+        self.neig_eff = self.n if self.neig_arg in (None, self.n) else 2
+        ev, vec = symeig(self.last_A, neig=self.neig_arg, mode="lowest", method=method, bck_options=bck or {}, **kw)
         return [ev, vec]
 
     def gauge(self, outs):
@@ -212,7 +215,7 @@ class SymeigP(Problem):
 
     def check_args(self, obs, call, lv, mech):
         a = call["args"]
-        ok = call["nargs"] == 4 and a[0] is self.last_A and a[1] == 2 and a[2] == "lowest" and a[3] is None
+        ok = call["nargs"] == 4 and a[0] is self.last_A and a[1] == self.neig_eff and a[2] == "lowest" and a[3] is None
         obs.check(ok, "args:" + mech, "custom symeig must be called with (A, neig, mode, M): got %s" % ([type(x).__name__ for x in a],))
 
 
@@ -388,9 +391,19 @@ class IvpP(Problem):
         return my_ivp
 
     def wrap(self):
+        # a callable replicating a built-in scheme must behave like that built-in in the backward pass as well (the adjoint system is
+        # integrated with the caller's method unless bck_options say otherwise): euler / rk4 on this coarse grid differ from rk45 by
+        # 1e-1 / 1e-4, so "the callable's method is replaced by a default in the backward" is visible
+        kind = ("rk45", "euler", "rk4")[self.seed % 3]
+        self.reference = kind
+        self.tol = 1e-5 if kind == "rk45" else 1e-9
+
         def my_ivp(fcn, ts, y0, params, **opts):
-            from xitorch._impls.integrate.ivp.adaptive_rk import rk45_adaptive
-            return rk45_adaptive(fcn, ts, y0, params, atol=1e-11, rtol=1e-10)
+            if kind == "rk45":
+                from xitorch._impls.integrate.ivp.adaptive_rk import rk45_adaptive
+                return rk45_adaptive(fcn, ts, y0, params, atol=1e-11, rtol=1e-10)
+            from xitorch._impls.integrate.ivp.explicit_rk import fwd_euler_ivp, rk4_ivp
+            return (fwd_euler_ivp if kind == "euler" else rk4_ivp)(fcn, ts, y0, params)
         return my_ivp
 
     def check_args(self, obs, call, lv, mech):
@@ -557,7 +570,8 @@ def run_custom(desc, obs):
     lv_c = {k: v.detach().clone().requires_grad_(mask[k]) for k, v in lv_c.items()}
     lv_r = {k: v.detach().clone().requires_grad_(mask[k]) for k, v in lv_c.items()}
     obs.note(requires_grad=[k for k in mask if mask[k]])
-    bck = P.bck_for_closed if P.bck_for_closed is not None else P.bck_default
+    # the closed-form callable cannot integrate the adjoint system: only that variant is paired with a built-in backward method
+    bck = P.bck_for_closed if (variant == "closed" and P.bck_for_closed is not None) else P.bck_default
     # ---- built-in reference
     try:
         with WarnLog():
@@ -629,14 +643,20 @@ def run_names(desc, obs):
     P0 = PROBLEMS[desc["functional"]]
     n_ok = 0
     for b in P0.builtins:
-        base = None
+        base, base_grads = None, None
         for sp in _spellings(b):
             P = P0(desc["seed"], desc["n"])
             lv = P.leaves()
             mech = "%s:%s" % (P.name, b)
+            grads = None
             try:
-                with WarnLog(), torch.no_grad():
+                with WarnLog():
                     o = P.call(lv, sp, dict(P.ref_opts) if b == P.reference else ({"nsamples": 30, "lb": -6.0, "ub": 6.0} if b == "_dummy1d" else {}), None)
+                    go = P.gauge(o)
+                    L = sum(x.sum() for x in go)
+                    if isinstance(L, torch.Tensor) and L.requires_grad and P.name != "mcquad":
+                        gl = torch.autograd.grad(L, list(lv.values()), allow_unused=True)
+                        grads = [torch.zeros_like(l) if g is None else g.detach() for g, l in zip(gl, lv.values())]
             except Exception as e:
                 if sp == b:
                     raise HarnessBug("built-in %s(%s) failed in lower case: %s: %s" % (P.name, b, type(e).__name__, e))
@@ -644,10 +664,15 @@ def run_names(desc, obs):
                 continue
             o = [x.detach() for x in o]
             if base is None:
-                base = o
+                base, base_grads = o, grads
             else:
                 same = len(o) == len(base) and all(a.shape == c.shape and torch.equal(a, c) for a, c in zip(o, base))
                 obs.check(same, "name_case_result:" + mech, "method=%r gives a different result than %r" % (sp, b))
+                if grads is not None and base_grads is not None:
+                    gerr = max(float((a - c).abs().max()) for a, c in zip(grads, base_grads))
+                    gsc = max(1.0, max(float(c.abs().max()) for c in base_grads))
+                    obs.check(gerr <= 1e-10 * gsc, "name_case_grad:" + mech,
+                              "method=%r gives a different first-order gradient than %r (difference %.3e)" % (sp, b, gerr))
                 obs.count("names_compared")
                 n_ok += 1
     obs.nontrivial = n_ok >= 2
